@@ -192,7 +192,7 @@ class FakePb:
 
 class Mod(Harness):
     name = "mod"
-    serves = ("C12", "C13", "C14")
+    serves = ("C12", "C13", "C14", "C11")
     functions = ("cobyqa/models.py:Interpolation.__init__", "cobyqa/models.py:build_system",
                  "cobyqa/models.py:Quadratic.__init__", "cobyqa/models.py:Quadratic.update",
                  "cobyqa/models.py:Quadratic.shift_x_base", "cobyqa/models.py:Quadratic.solve_systems",
@@ -220,6 +220,11 @@ class Mod(Harness):
             for (n, npt) in ns:
                 for sd in seeds:
                     S.append(dict(kind="hist", n=n, npt=npt, seed=sd, length=L, m_ub=1 if sd % 2 else 0, m_eq=1 if sd % 3 == 0 else 0))
+        if prop in (None, "C11"):
+            S.append(dict(kind="interleave", n=2, npt=5, seed=1, length=6))
+            S.append(dict(kind="interleave", n=1, npt=3, seed=2, length=6))
+            if tier == "thorough":
+                S.append(dict(kind="interleave", n=2, npt=6, seed=3, length=10))
         if prop in (None, "C14"):
             for (n, npt) in ns:
                 if tier == "quick" and npt >= 6:
@@ -276,11 +281,59 @@ class Mod(Harness):
         return ops
 
     def run(self, ctx, shape):
+        if shape["kind"] == "interleave":
+            return self._interleave(ctx, shape)
+        return self._run(ctx, shape, [Fr(1, 4), Fr(-1, 2), Fr(3, 8)][:shape["n"]])
+
+    def _interleave(self, ctx, shape):
+        """two interpolation sets driven alternately (the scenario of the 1.1.3 module-level cache bug)"""
+        e, M, np = ctx.e, ctx.M, ctx.np
+        MD = M.models
+        n, npt = shape["n"], shape["npt"]
+        sets = []
+        for idx, x0 in enumerate(([Fr(1, 4), Fr(-1, 2)][:n], [Fr(-3, 2), Fr(2, 1)][:n])):
+            rec = []
+
+            def fresh_vals(rec=rec, idx=idx):
+                f = e.fresh_in(f"f{idx}", -1.0, 1.0)
+                rec.append(f)
+                return f, [], []
+            pb = FakePb(ctx, n, [float(v) for v in x0], 0, 0, fresh_vals)
+            options = {"debug": False, "radius_init": 1.0 + idx, "radius_final": 1e-6, "nb_points": npt,
+                       "maxfev": 10 ** 6, "target": -INF, "feasibility_tol": 1e-8}
+            models = MD.Models(pb, options, 0.0)
+            it = models.interpolation
+            pts = [[Fr(float(v)) for v in _np.asarray(it.point(k), dtype=object)] for k in range(npt)]
+            sets.append(dict(models=models, pts=pts, vals=list(rec), x0=x0, fresh=fresh_vals,
+                             ops=self._history(dict(shape, seed=shape["seed"] + 10 * idx, kind="hist"), x0, pts)))
+        checks = []
+
+        def snap(tag):
+            for s_ in sets:
+                for k in range(npt):
+                    checks.append((tag, s_["models"].fun(ctx.arr([float(v) for v in s_["pts"][k]])), s_["vals"][k]))
+        snap("initial")
+        for step in range(shape["length"]):
+            for s_ in sets:
+                op = s_["ops"][step] if step < len(s_["ops"]) else ("reset",)
+                if op[0] == "upd":
+                    _, k, x_new = op
+                    f, _, _ = s_["fresh"]()
+                    s_["models"].update_interpolation(k, ctx.arr([float(v) for v in x_new]), f, np.zeros(0), np.zeros(0))
+                    s_["pts"][k] = list(x_new)
+                    s_["vals"][k] = f
+                elif op[0] == "shift":
+                    s_["models"].shift_x_base(np.copy(ctx.arr([float(v) for v in s_["pts"][op[1]]])), {"debug": False})
+                else:
+                    s_["models"].reset_models()
+                snap(f"step{step}")
+        return dict(shape=shape, inter=checks)
+
+    def _run(self, ctx, shape, x0):
         e, M, np = ctx.e, ctx.M, ctx.np
         MD = M.models
         n, npt = shape["n"], shape["npt"]
         m_ub, m_eq = shape.get("m_ub", 0), shape.get("m_eq", 0)
-        x0 = [Fr(1, 4), Fr(-1, 2), Fr(3, 8)][:n]
         cnt = [0]
 
         def fresh_vals():
@@ -435,6 +488,11 @@ class Mod(Harness):
         def C(prop, clause, cond, s=None):
             claims.append(Claim(prop, "mod:" + clause, cond, sig=s or sig))
 
+        if shape["kind"] == "interleave":
+            goals.append("interleave")
+            claims.append(Claim("C11", "mod:interleaved_interpolation_sets_do_not_interfere",
+                                all_of(close(code, val, TOL) for (tag, code, val) in o["inter"]), sig=sig))
+            return claims, goals
         if shape["kind"] == "hist":
             for ck in o["checks"]:
                 op = ck["tag"].split()[0]
@@ -498,9 +556,13 @@ class Mod(Harness):
     def required_goals(self, tier, prop):
         if prop == "C14":
             return ["det"]
+        if prop == "C11":
+            return ["interleave"]
         return ["op_initial", "op_update", "op_shift", "op_reset"]
 
     def digest(self, ctx, shape, o):
+        if shape["kind"] == "interleave":
+            return [[c for (_, c, _) in o["inter"][-6:]]]
         if shape["kind"] == "hist":
             last = o["checks"][-1]
             return [[c for (_, _, c, _) in last["interp"]]]
